@@ -1,7 +1,7 @@
 // Phonetic Method
 use ahash::RandomState;
 use std::collections::HashMap;
-use std::fs::{write, File};
+use std::fs::{rename, write, File};
 use std::time::SystemTime;
 
 use crate::config::Config;
@@ -27,19 +27,16 @@ impl PhoneticMethod {
     /// Creates a new `PhoneticMethod` struct.
     pub(crate) fn new(config: &Config) -> Self {
         // Load candidate selections file.
-        let selections = if let Ok(file) = std::fs::read(config.get_user_phonetic_selection_data())
-        {
-            serde_json::from_slice(&file).unwrap()
-        } else {
-            HashMap::with_hasher(RandomState::new())
-        };
+        // An unreadable or damaged file is treated as an absent one.
+        let selections = std::fs::read(config.get_user_phonetic_selection_data())
+            .ok()
+            .and_then(|file| serde_json::from_slice(&file).ok())
+            .unwrap_or_else(|| HashMap::with_hasher(RandomState::new()));
 
         // Load user's auto correct file.
         let (modified, autocorrect) = {
             if let Ok(mut file) = File::open(config.get_user_phonetic_autocorrect()) {
-                let modified = file.metadata().unwrap().modified().unwrap();
-                let autocorrect = serde_json::from_slice(&read(&mut file)).unwrap();
-                (modified, autocorrect)
+                (modification_time(&file), read_autocorrect(&mut file))
             } else {
                 (
                     SystemTime::UNIX_EPOCH,
@@ -128,11 +125,15 @@ impl Method for PhoneticMethod {
                     .to_string(),
                 suggestion,
             );
-            write(
-                config.get_user_phonetic_selection_data(),
-                serde_json::to_string(&self.selections).unwrap(),
-            )
-            .unwrap();
+            // Write into a temporary file and rename it afterwards, so that a failed or
+            // interrupted save loses this selection at most and never the saved ones.
+            let path = config.get_user_phonetic_selection_data();
+            let temp = path.with_extension("json.tmp");
+            if let Ok(data) = serde_json::to_string(&self.selections) {
+                if write(&temp, data).is_ok() {
+                    let _ = rename(&temp, &path);
+                }
+            }
         }
 
         // Reset to defaults
@@ -141,11 +142,10 @@ impl Method for PhoneticMethod {
 
     fn update_engine(&mut self, config: &Config) {
         if let Ok(mut file) = File::open(config.get_user_phonetic_autocorrect()) {
-            let modified = file.metadata().unwrap().modified().unwrap();
+            let modified = modification_time(&file);
             // Update the auto correct entries if only the file was modified in the meantime.
             if modified > self.modified {
-                self.suggestion.user_autocorrect =
-                    serde_json::from_slice(&read(&mut file)).unwrap();
+                self.suggestion.user_autocorrect = read_autocorrect(&mut file);
                 self.modified = modified;
             }
         }
@@ -195,6 +195,22 @@ impl Method for PhoneticMethod {
         })
         .to_string()
     }
+}
+
+/// Reads the user's auto correct entries from the `file`.
+/// Unreadable or damaged content is treated as an absent file.
+fn read_autocorrect(file: &mut File) -> HashMap<String, String, RandomState> {
+    read(file)
+        .ok()
+        .and_then(|content| serde_json::from_slice(&content).ok())
+        .unwrap_or_else(|| HashMap::with_hasher(RandomState::new()))
+}
+
+/// Last modification time of the `file`.
+fn modification_time(file: &File) -> SystemTime {
+    file.metadata()
+        .and_then(|metadata| metadata.modified())
+        .unwrap_or(SystemTime::UNIX_EPOCH)
 }
 
 // Implement Default trait on PhoneticMethod for testing convenience.
